@@ -161,6 +161,15 @@ def run_check(pid, tier, seed):
             if problems:
                 raise V.Broken('assumption audit failed: ' + '; '.join(problems[:10]))
             info['steps'].append('Print Assumptions: %d/%d closed under the global context' % (closed, n_thm))
+            if tier == 'thorough':
+                # independent re-check of the compiled closure of the property's modules
+                mods = ['BMA.' + t[:-3].replace('/', '.') for t in prop['targets']]
+                rc, cout = V.run(['coqchk', '-o', '-silent', '-R', COQ, 'BMA'] + mods, cwd=COQ, timeout=7200)
+                ax = re.search(r'\* Axioms:\s*(.*?)\n\s*\n', cout, re.S)
+                axioms = ax.group(1).strip() if ax else '?'
+                if rc != 0 or axioms != '<none>' or 'type-in-type: <none>' not in cout or 'unsafe (co)fixpoints: <none>' not in cout or 'positivity is assumed: <none>' not in cout:
+                    raise V.Broken('coqchk does not accept the compiled development (rc=%d, axioms=%s):\n%s' % (rc, axioms, cout[-1500:]))
+                info['steps'].append('coqchk -o %s: accepted, axioms: <none>' % ' '.join(mods))
 
     # 4. the implementation, built from the working tree with the hooks on
     variants = prop.get('variants', ['default'])
@@ -225,7 +234,7 @@ def run_check(pid, tier, seed):
     coverage = {
         'obligations': max(n_thm, 1) if not tie_failures else max(n_thm, 1),
         'discharged': n_thm if not tie_failures else 0,
-        'checker_cmd': 'cd /verif/build/coq && make -j16 %s  (coqc 8.16.1, full .vo build) ; coqc build/audit/Audit_%s.v (Print Assumptions)' % (' '.join(targets), pid),
+        'checker_cmd': 'cd /verif/build/coq && make -j16 %s  (coqc 8.16.1, full .vo build) ; coqc build/audit/Audit_%s.v (Print Assumptions)%s' % (' '.join(targets), pid, ' ; coqchk -o -silent on the targets' if tier == 'thorough' else ''),
         'trusted_base': TRUSTED_BASE + prop.get('trusted_extra', []),
         'theorems': [n for _m, n in (prop['theorems']() if callable(prop['theorems']) else prop['theorems'])][:400] if not tie_failures else [],
         'tie': 'model regenerated from /repo/src by rs2v on this run; correspondence check on %d programs' % n_prog,
